@@ -1,0 +1,68 @@
+// Copyright 2025 SCION Association
+//
+// Licensed under the Apache License, Version 2.0 (the "License");
+// you may not use this file except in compliance with the License.
+// You may obtain a copy of the License at
+//
+//   http://www.apache.org/licenses/LICENSE-2.0
+//
+// Unless required by applicable law or agreed to in writing, software
+// distributed under the License is distributed on an "AS IS" BASIS,
+// WITHOUT WARRANTIES OR CONDITIONS OF ANY KIND, either express or implied.
+// See the License for the specific language governing permissions and
+// limitations under the License.
+
+//go:build verif
+
+package router
+
+// Verification-only exports for checking how configuration reaches the data plane of a Connector
+// built with the production constructor (NewConnector) and configured through its exported
+// methods / control.ConfigDataplane. Add-only; not compiled without the "verif" build tag.
+// Self-contained: does not depend on export_verif.go.
+
+import (
+	"net"
+)
+
+// VerifCfgUnderlay returns the underlay provider instance registered under name in the
+// connector's data plane (nil if that provider has not been instantiated). It allows a harness to
+// install a recording ConnOpener with SetConnOpener before any link is created.
+func VerifCfgUnderlay(c *Connector, name string) UnderlayProvider {
+	return c.DataPlane.underlays[name]
+}
+
+// VerifCfgProc is one fast-path processor on the connector's data plane.
+type VerifCfgProc struct {
+	d *dataPlane
+	p *scionPacketProcessor
+}
+
+// VerifCfgNewProc finishes the configuration phase the way dataPlane.Run does before it starts
+// goroutines (headroom, running flag) and returns a fast-path processor. No goroutine is started.
+func VerifCfgNewProc(c *Connector) *VerifCfgProc {
+	d := &c.DataPlane
+	for _, u := range d.underlays {
+		d.underlayHeadroom = max(d.underlayHeadroom, u.Headroom())
+	}
+	d.setRunning()
+	return &VerifCfgProc{d: d, p: newPacketProcessor(d)}
+}
+
+// Deliver runs the fast path on a copy of raw as if it had been received on interface via.
+// It returns the disposition (0 discard, 1 forward, 2 slow path, 3 done), the egress interface and,
+// if the packet is forwarded on the internal link, the underlay destination the link resolved.
+func (v *VerifCfgProc) Deliver(raw []byte, via uint16) (disp int, egress uint16, dst *net.UDPAddr) {
+	pkt := (&Packet{}).init(new([bufSize]byte))
+	pkt.reset(max(v.d.underlayHeadroom, minHeadroom))
+	pkt.RawPacket = pkt.RawPacket[:len(raw)]
+	copy(pkt.RawPacket, raw)
+	pkt.Link = v.d.interfaces[via]
+	dp := v.p.processPkt(pkt)
+	if dp == pForward {
+		if l := v.d.interfaces[pkt.egress]; l != nil && l.Scope() == Internal {
+			dst = (*net.UDPAddr)(pkt.RemoteAddr)
+		}
+	}
+	return int(dp), pkt.egress, dst
+}
